@@ -4,6 +4,7 @@ package main
 // list in testdata/config_sample.yml and the property statement. It shares nothing with the parser under test.
 
 import (
+	"fmt"
 	"strings"
 	"unicode/utf8"
 )
@@ -19,6 +20,7 @@ var (
 	severityRef = []string{"emerg", "alert", "crit", "err", "warn", "notice", "info", "debug"}
 	log4jRef    = []string{"off", "fatal", "crit", "error", "warn", "notice", "info", "debug"}
 	customRef   = []string{"L0", "l-1", "two", "III", "4", "five5", "s i x", "sévèn"}
+	sparseRef   = []string{"", "same", "same", "", "x", "same", "y y", "-"} // empty and repeated names: the mapping is positional
 )
 
 type lineClass int
@@ -104,8 +106,24 @@ func onlyNonASCIIRemoved(want, got string) bool {
 	return j == len(got)
 }
 
+// longestValidPrefix returns the cut position the statement asks for: the largest character boundary of the (valid
+// UTF-8) message that is not behind limit. len(msg) > limit.
+func longestValidPrefix(msg string, limit int) int {
+	cut := limit
+	for cut > 0 && !utf8.RuneStart(msg[cut]) {
+		cut--
+	}
+	return cut
+}
+
 // checkMessage compares the message field with the message part of the line. limit = InputLogMaxMessageBytes,
 // rawLen = length of the whole line, recLimit = InputLogMaxRecordBytes.
+//
+// Over-long message, original valid UTF-8: "cut to the configured limit at a valid UTF-8 boundary" = exactly the longest
+// prefix that ends at a character boundary and is not longer than the limit (DESIGN.md A.2: "the longest prefix p of
+// msg[:L] such that p is valid UTF-8", so len(p) > L-4 always). Only the bytes of the ONE character the limit falls into
+// may be missing. Original not valid UTF-8: the documentation only promises that the result is not made worse
+// ("non-ASCII bytes at the end are stripped"), so bytes >= 0x80 may be missing, ASCII bytes may not.
 func checkMessage(msg, got string, limit, rawLen, recLimit int) (string, string) {
 	validIn := utf8.ValidString(msg)
 	if len(msg) <= limit {
@@ -120,14 +138,25 @@ func checkMessage(msg, got string, limit, rawLen, recLimit int) (string, string)
 	if len(got) > limit {
 		return "truncate:longer-than-limit", "over-long message was not cut to the limit"
 	}
+	if validIn {
+		want := msg[:longestValidPrefix(msg, limit)]
+		switch {
+		case got == want:
+			return "", ""
+		case !strings.HasPrefix(msg, got):
+			return "truncate:not-a-prefix", "cut message is not a prefix of the original message"
+		case !utf8.ValidString(got):
+			return "truncate:invalid-utf8", "the original message is valid UTF-8 but the cut message is not (cut inside a multi-byte character)"
+		default:
+			// a valid prefix that is not the longest one: complete characters (or ASCII bytes) in front of the limit were removed
+			return "truncate:too-short", fmt.Sprintf("the cut message is %d bytes shorter than the longest prefix of the original that fits into the limit and ends at a character boundary (%d bytes): more than the one partial character was removed", len(want)-len(got), len(want))
+		}
+	}
 	if !strings.HasPrefix(msg, got) {
-		if validIn || !onlyNonASCIIRemoved(msg[:limit], got) {
+		if !onlyNonASCIIRemoved(msg[:limit], got) {
 			return "truncate:not-a-prefix", "cut message is not a prefix of the original message"
 		}
 		return "", "" // invalid original: stripping invalid bytes is tolerated
-	}
-	if validIn && !utf8.ValidString(got) {
-		return "truncate:invalid-utf8", "the original message is valid UTF-8 but the cut message is not (cut inside a multi-byte character)"
 	}
 	if len(got) <= limit-4 {
 		for i := len(got); i < limit; i++ {
